@@ -125,7 +125,9 @@ def histories(draw):
     # ... and the model is loaded directly or through a second plugin that reparameterises it (nested plugins)
     return {"steps": steps, "layout": draw(st.sampled_from(["beside", "lib"])), "wrapper": draw(st.booleans()),
             # plugin file names may carry a version or variant after a dot (decay.v2.py)
-            "dotted": draw(st.integers(0, 3)) == 0}
+            "dotted": draw(st.integers(0, 3)) == 0,
+            # files stamped ahead of this machine's clock (clock skew against a file server): still "mtime advances"
+            "future": draw(st.integers(0, 2)) == 0}
 
 
 class Driver(object):
@@ -167,7 +169,8 @@ def check_history(case, rec):
     header = os.path.join(pkg, "sasmodels", "kernel_header.c")
     state = {"k1": 1.5, "k2": 2.0, "k3": None, "zz": None, "rr_default": 20.0, "libname": libname, "k4": 1.0,
              "valid": None}
-    clock = [1700000000]
+    clock = [4102444800 if case.get("future") else 1700000000]     # logical clock: year 2100 or 2023
+    rec.cls("mtimes:" + ("ahead-of-the-wall-clock" if case.get("future") else "in-the-past"))
     texts = {"plugin": [], "lib": [], "header": [], "wrapper": []}     # history of (text, state-fragment)
     use_wrapper = bool(case.get("wrapper"))
     wrap = os.path.join(base, "wrap17.py")
